@@ -165,8 +165,9 @@ Definition py_src_index (idx shape : list Z) (sls : list sl) : list Z :=
 (* ------------------------------------------------------------------ *)
 (* boolean hypotheses of the theorems: the TYPES of the arguments        *)
 (* ------------------------------------------------------------------ *)
-(* a bound / step is a C++ `int`; an extent is a size_t below 2^62 (so that n + |bound| and k*step stay inside int64_t) *)
-Definition intb (v : Z) : bool := (- 2 ^ 31 <=? v) && (v <? 2 ^ 31).
+(* a bound / step is a value of ANY integer argument type (int, int64_t, size_t, ...) of magnitude below 2^62; an extent is
+   a size_t below 2^62 (so that n + |bound| and k*step stay inside int64_t) *)
+Definition intb (v : Z) : bool := (- 2 ^ 62 <=? v) && (v <? 2 ^ 62).
 Definition ointb (o : option Z) : bool := match o with None => true | Some v => intb v end.
 Definition ext_ok (n : Z) : bool := (0 <=? n) && (n <? 2 ^ 62).
 Definition step_nz (c : option Z) : bool := match c with Some s => negb (s =? 0) | None => true end.
